@@ -31,5 +31,8 @@ fixed('C02', 'b0251cf', 'same defect seen as language loss: the merged levels we
 
 finding('C15', 'final-markov-preterminal', 'quit inside the Markov level of the FINAL pre-terminal of the run: queue is empty afterwards, the "Done" path returns without saving, --load restarts the session from the beginning (F-C15b)', {'ruleset': 'base structures D1/M/O1 where the least probable pre-terminal is an OMEN level', 'cut': 'any j inside that level'}, 'F-C15b')
 
+finding('C05', 'len-changing-lower', 'password containing U+0130 (the only character whose lower() is longer than itself): e-mail / website / alpha detectors index the original string with offsets computed on the lower-cased copy -> empty or mis-aligned segments, wrong length labels, bogus multi-word splits (F-C05)', {'password': '\u0130@a.comx', 'segments': "[('\u0130@a.com','E'),('','O0')]"}, 'F-C05')
+finding('C05', 'keyboard-walk-recursion-depth', 'password made of ~1000 separate keyboard walks: detect_keyboard_walk recurses once per walk and overflows the interpreter stack -> RecursionError aborts parsing (F-C05b); only the thorough tier generates such input', {'password': "'1qaz2wsx3edc4rfv' * 250"}, 'F-C05b')
+
 json.dump(F, open('/verif/known_findings.json', 'w'), indent=1)
 print(len(F), 'entries')
